@@ -201,6 +201,7 @@ func HarnessFaults() {
 		verif.Assert(p.err != nil, "no-reconnect-client-fails-fast")
 		verif.Assert(l.Dials() == 1, "no-reconnect-client-never-redials")
 	}
+	verif.Assert(verif.RedialsWithoutBackoff() == 0, "every-redial-is-preceded-by-a-backoff-sleep")
 	closer()
 	verif.Quiesce()
 	if verif.LeftoverLib() != 0 {
@@ -270,6 +271,7 @@ func HarnessRetry() {
 		}
 	}
 	verif.Assert(l.Dials() == 2+failDials, "one-redial-per-attempt")
+	verif.Assert(verif.RedialsWithoutBackoff() == 0, "every-redial-is-preceded-by-a-backoff-sleep")
 	var p outcome
 	go call(c.Echo, 777, &p)
 	verif.Quiesce()
